@@ -212,7 +212,11 @@ def gen_cfg(rng, spec, kind=None):
     kind = kind or rng.choice(KINDS)
     holes = [n for f in spec["frames"] for i in f["insts"] for n, p in enumerate(i["pts"]) if p[0] is None]
     anchor = rng.choice([None, rng.randrange(spec["n_nodes"])] + ([rng.choice(holes)] * 2 if holes else []))
-    return {"kind": kind, "user_only": rng.random() < 0.7, "max_hw": list(rng.choice(MAX_HW)),
+    cfg_hw = [None, None]
+    if rng.random() < 0.35:       # data_config.preprocessing.max_height / max_width (take precedence, per component)
+        pick = rng.choice(MAX_HW[2:])
+        cfg_hw = [pick[0] if rng.random() < 0.7 else None, pick[1] if rng.random() < 0.7 else None]
+    return {"kind": kind, "user_only": rng.random() < 0.7, "max_hw": list(rng.choice(MAX_HW)), "cfg_max_hw": cfg_hw,
             "scale": rng.choice([1.0, 1.0, 0.5, 0.25]), "anchor": anchor,
             "crop_hw": list(rng.choice([(32, 32), (48, 64), (100, 100), (17, 24)])),
             "max_stride": rng.choice([1, 16, 32])}
@@ -220,8 +224,10 @@ def gen_cfg(rng, spec, kind=None):
 
 def ds_line(variant, spec, cfg, seq):
     mh, mw = cfg["max_hw"]
+    ch, cw = cfg.get("cfg_max_hw", [None, None])
     tok = ["ds", str(variant), str(KINDS.index(cfg["kind"])), "1" if cfg["user_only"] else "0",
-           str(-1 if mh is None else mh), str(-1 if mw is None else mw), rat(cfg["scale"]),
+           str(-1 if mh is None else mh), str(-1 if mw is None else mw),
+           str(-1 if ch is None else ch), str(-1 if cw is None else cw), rat(cfg["scale"]),
            str(-1 if cfg["anchor"] is None else cfg["anchor"]), str(cfg["crop_hw"][0]), str(cfg["crop_hw"][1]),
            str(len(spec["frames"]))]
     for f in spec["frames"]:
@@ -308,7 +314,11 @@ def make_dataset(labels, cfg):
     from sleap_nn.data.custom_datasets import (BottomUpDataset, CenteredInstanceDataset, CentroidDataset,
                                                SingleInstanceDataset)
 
-    dc = OmegaConf.create({"user_instances_only": cfg["user_only"], "preprocessing": {"is_rgb": False},
+    pre = {"is_rgb": False}
+    ch, cw = cfg.get("cfg_max_hw", [None, None])
+    if ch is not None or cw is not None or cfg.get("cfg_keys_present"):
+        pre["max_height"], pre["max_width"] = ch, cw
+    dc = OmegaConf.create({"user_instances_only": cfg["user_only"], "preprocessing": pre,
                            "augmentation_config": None})
     hc = OmegaConf.create({"sigma": 1.5, "output_stride": 2, "anchor_part": cfg["anchor"]})
     common = dict(labels=labels, data_config=dc, max_stride=cfg["max_stride"], scale=cfg["scale"],
